@@ -7,6 +7,7 @@ from .common import (need, guards_of, calls_to, ext_calls, all_paths_pass, succs
                      is_param, arg_of, stores_in_package)
 from . import C05, C10
 from . import C01
+from ..consteval import fold
 
 PROPERTY = 'C02'
 LEVEL = 'other'
@@ -52,6 +53,9 @@ def check(run):
                         'unit would otherwise change with later reads)', 6)
     from .common import lazy_pipeline
     lazy_pipeline(R, 'C02.P3')
+    from . import C14 as _C14
+    with R.as_rule('C02.P3'):
+        _C14.param(R)            # every _on_event call is given run()'s auto_pong: the reaction does not depend on the phase
     p1(R)
     C10.limit(R, RID='C02.P1b')
     C05.track(R, RID='C02.P2')
@@ -174,6 +178,23 @@ def p1(R):
     fn, fc = finds[0]
     R.ob('C02.P1b', 'separator searched in the accumulated buffer', U(fc.func.value) in bufnames,
          'separator searched in %s: a terminator cut across two reads is never found' % U(fc.func.value), func=f, node=fc)
+    # the whole accumulated buffer is searched; a resumed search (find(sep, start)) must clamp its start at 0 and keep
+    # len(sep) - 1 already-seen bytes: a negative start counts from the end of the buffer
+    okw = len(fc.args) == 1 and not fc.keywords
+    if not okw and len(fc.args) == 2 and not fc.keywords:
+        st_ = rd.origin(fn, fc.args[1])[0]
+        if fold(R, st_, g.ctx) == 0:
+            okw = True
+        elif isinstance(st_, ast.Call) and U(st_.func) == 'max' and len(st_.args) == 2 and any(
+                fold(R, a_, g.ctx) == 0 for a_ in st_.args):
+            e_ = [a_ for a_ in st_.args if fold(R, a_, g.ctx) != 0]
+            sepn = U(fc.args[0])
+            txt = U(e_[0]).replace(' ', '') if e_ else ''
+            okw = bool(e_) and any(txt.endswith(t_) for t_ in ('-len(%s)+1' % sepn, '-len(%s)' % sepn, '-(len(%s)-1)' % sepn))
+    R.ob('C02.P1b', 'the separator search covers every position where the terminator can start', okw,
+         'separator searched with %s: a start index that can be negative (counted from the end of the buffer) or past '
+         'unsearched bytes makes finding the terminator depend on where the reads were cut' % U(fc), func=f, node=fc,
+         construct='separator search range')
     ext2 = [n for n in arm2 for c in n.calls if isinstance(c.func, ast.Attribute) and c.func.attr == 'extend' and U(c.func.value) in bufnames]
     cd2 = [n for n in arm2 if n.kind == 'stmt' and isinstance(n.ast, ast.Assign) and isinstance(n.ast.value, ast.Subscript)
            and U(n.ast.value.value) == data]
@@ -461,4 +482,23 @@ def parser_lifetime(R, RID='C02.P3'):
                              '%s is constructed inside a loop in %s: each iteration starts with an empty parser and the bytes '
                              'fed so far are forgotten' % (U(c), fi.qual), func=fi, node=c,
                              construct='parser constructed in a loop in %s' % fi.qual)
+                        # a parser kept in a field is set up with its owner; replacing it from code that runs while the
+                        # stream is being fed orphans the bytes the old parser has buffered (and the rest of the read)
+                        stored = n.kind == 'stmt' and isinstance(n.ast, ast.Assign) and any(
+                            isinstance(t_, ast.Attribute) for t_ in n.ast.targets)
+                        if stored and fi.name != '__init__':
+                            seen, work = set(), [fi.qual]
+                            while work:
+                                q_ = work.pop()
+                                if q_ in seen:
+                                    continue
+                                seen.add(q_)
+                                for (cx_, _, _) in R.types.callers.get(q_, []):
+                                    work.append(cx_.func.qual)
+                            feeding = sorted(q_ for q_ in seen if q_.endswith('.feed') or q_.endswith('WebsocketSession.run'))
+                            R.ob(RID, 'parser field %s is not replaced mid-stream' % U(n.ast.targets[0]), not feeding,
+                                 '%s stores a new %s in a field and runs below %s: the parser is swapped while the byte stream '
+                                 'is being fed - what the old parser had buffered, and the rest of the current read, is lost' % (
+                                     fi.qual, t.cls.split('.')[-1], feeding[:2]), func=fi, node=n.ast,
+                                 construct='parser field replaced in %s' % fi.qual)
     need(n_sites >= 2, 'parser construction sites not found')
